@@ -17,9 +17,11 @@ properties), `domlt_eval_spec` (`_eval` with path compression returns a minimum-
 linked tree ancestors), `domlt_semi_is_sdom` (after Steps 2–3 `semi[v]` is the number of the
 semidominator: Theorem 4 of the 1979 paper), `domlt_total`, and `domLT_always_certified` (the verified
 checker never rejects the model's answer).  The proofs are in Proof/DomLT_{Tree,Semi,Thm,Dfs2,Eval,
-Loop,Loop3,Iter,Final}.lean.  What remains outside Lean is the tie between model and Python code
-(correspondence harness): Python iterates `pred[w]`/pops `bucket[pw]` in hash order, the model in
-insertion order.
+Loop,Loop3,Iter,Final}.lean.  Python iterates `pred[w]` / pops `bucket[pw]` in hash order:
+the enumeration order is a parameter of the model (`Order`), `domlt_correct_any_order` proves the
+theorem for every order and `domlt_order_independent` that the returned dict does not depend on it
+(the driver runs insertion order).  What remains outside Lean is the tie between model and Python
+code (correspondence harness).
 -/
 import AgVerif.Proof.DomRef
 import AgVerif.Proof.DomLT
@@ -87,7 +89,7 @@ theorem cert_iff_reference (g : Digraph) (hwf : g.WF) (t : Nat → Option Nat) :
 /-- the entry always maps to `None` and every other key maps to a node -/
 theorem domLT_shape (g : Digraph) (r : DomLT.Result) (h : domLT g = some r) :
     r.dom g.entry = some none ∧ ∀ v, v ≠ g.entry → r.dom v ≠ some none := by
-  simp only [domLT] at h
+  simp only [domLT, domLTWith] at h
   split at h
   · simp at h
   · split at h
@@ -203,12 +205,12 @@ theorem domlt_eval_spec (g : Digraph) (f0 : Nat) (s0 : St) (n : Nat) (h : dfs g 
 /-- Steps 2–3 are total on well-formed graphs (no `KeyError`, no unbound `y`, the fuel suffices) and
     afterwards `semi[v]` is the DFS number of the semidominator of `v`, for every reachable `v` other
     than the entry (Theorem 4 of the paper). -/
-theorem domlt_semi_is_sdom (g : Digraph) (hwf : g.WF) (s : St) (n : Nat)
+theorem domlt_semi_is_sdom (g : Digraph) (hwf : g.WF) (o : Order) (ho : o.Adm) (s : St) (n : Nat)
     (h : dfs g (dfsFuel g) = some (s, n)) :
-    ∃ s1, steps23 (g.n + 1) n s none = some s1 ∧
+    ∃ s1, steps23 o (g.n + 1) n s none = some s1 ∧
       ∀ v, v ≠ g.entry → Reach g.Edge g.entry v →
         ∃ sv, IsSemi g.Edge s.semi sv v ∧ s1.semi v = s.semi sv := by
-  obtain ⟨s1, h1, hL⟩ := steps23_total hwf h
+  obtain ⟨s1, h1, hL⟩ := steps23_total hwf ho h
   refine ⟨s1, h1, ?_⟩
   intro v hne hr
   have C := ctx_of_dfs hwf h
@@ -227,6 +229,33 @@ theorem domlt_correct : domlt_correct_full := by
   intro g hwf
   obtain ⟨r, h1, h2, h3, h4⟩ := domLT_correct g hwf
   exact ⟨r, h1, h2, fun v _ hne hr => h3 v hne hr, fun v _ hr => h4 v hr⟩
+
+/-- … and it does not depend on the order in which Python enumerates the sets `pred[w]`
+    (`for v in pred[w]`) and `bucket[pw]` (`bpw.pop()`): for EVERY enumeration order `o` (any function
+    of the iteration and the set's content that yields exactly the set's elements) the model run with
+    that order terminates without error and returns the dominator tree. -/
+theorem domlt_correct_any_order (o : Order) (ho : o.Adm) (g : Digraph) (hwf : g.WF) :
+    ∃ r, domLTWith o g = some r ∧ r.dom g.entry = some none ∧
+      (∀ v, v ≠ g.entry → Reach g.Edge g.entry v →
+        ∃ d, r.dom v = some (some d) ∧ IDom g.Edge g.entry d v) ∧
+      (∀ v, ¬ Reach g.Edge g.entry v → r.dom v = none) :=
+  domLTWith_correct o ho g hwf
+
+/-- hence the returned dict is the same for every enumeration order (what the driver runs, insertion
+    order, is representative of CPython's hash order) -/
+theorem domlt_order_independent (o : Order) (ho : o.Adm) (g : Digraph) (hwf : g.WF) :
+    ∃ r r', domLTWith o g = some r ∧ domLT g = some r' ∧ ∀ v, r.dom v = r'.dom v := by
+  obtain ⟨r, h1, h2, h3, h4⟩ := domLTWith_correct o ho g hwf
+  obtain ⟨r', g1, g2, g3, g4⟩ := domLT_correct g hwf
+  refine ⟨r, r', h1, g1, ?_⟩
+  intro v
+  by_cases hv : v = g.entry
+  · rw [hv, h2, g2]
+  · by_cases hr : Reach g.Edge g.entry v
+    · obtain ⟨d, hd, hi⟩ := h3 v hv hr
+      obtain ⟨d', hd', hi'⟩ := g3 v hv hr
+      rw [hd, hd', Spec.idom_unique hr hi hi']
+    · rw [h4 v hr, g4 v hr]
 
 /-- the same with the decidable well-formedness check as hypothesis -/
 theorem domlt_correct_wfb (g : Digraph) (hwf : g.wfb = true) :
@@ -279,6 +308,18 @@ example : IsDomTree irr (fun v => [none, some 0, some 0, some 1].getD v none) :=
     cycle through the entry, one irreducible with a self loop, a catch edge and … no unreachable node) -/
 example : ∃ r, domLT tarjan = some r ∧ IsDomTree tarjan r.idom := domlt_correct_wfb tarjan (by decide)
 example : ∃ r, domLT irr = some r ∧ IsDomTree irr r.idom := domlt_correct_wfb irr (by decide)
+/-- an admissible enumeration order other than insertion order: `pred[w]` reversed, `bucket[pw]`
+    reversed in every other iteration -/
+def revOrder : Order :=
+  { pred := fun _ l => l.reverse, bucket := fun i l => if i % 2 = 0 then l.reverse else l }
+example : revOrder.Adm := fun i l x => ⟨List.mem_reverse, by
+  show x ∈ (if i % 2 = 0 then l.reverse else l) ↔ x ∈ l
+  split
+  · exact List.mem_reverse
+  · exact Iff.rfl⟩
+example : ((domLTWith revOrder tarjan).map fun r => (List.range 13).map r.idom)
+    = some [none, some 0, some 0, some 0, some 0, some 0, some 3, some 3, some 0, some 0, some 7, some 0, some 4] := by
+  decide
 /-- a graph with an unreachable node 2 (and an edge from it into the reachable part) -/
 def unr : Digraph := { n := 3, entry := 0, edges := [[1], [0], [1]], catchEdges := [[], [], []] }
 example : ∃ r, domLT unr = some r ∧ IsDomTree unr r.idom := domlt_correct_wfb unr (by decide)
